@@ -39,6 +39,32 @@ Theorem C15_av1_resync : forall h p f st0, starts_fresh p ->
 Proof. exact av1_resync. Qed.
 Print Assumptions C15_av1_resync.
 
+(* the other reset the anchor names (N = 1): a frame that opens a new coded video sequence is decoded as by
+   a fresh receiver after any history, even when its first packet claims (Z = 1) to continue a fragment *)
+Theorem C15_av1_resync_sequence : forall h p f st0, starts_sequence p ->
+  av1_run (av1_after st0 h) (p :: f) = av1_run st0 (p :: f).
+Proof. exact av1_resync_sequence. Qed.
+Print Assumptions C15_av1_resync_sequence.
+
+(* nothing but the carried fragment links one packet to the next: the flags Z, Y, N the receiver shows are
+   outputs only, so two receivers holding the same fragment decode every further packet sequence alike *)
+Theorem C15_av1_state_is_buffer : forall ps st1 st2, ad_buffer st1 = ad_buffer st2 ->
+  snd (av1_run st1 ps) = snd (av1_run st2 ps) /\
+  ad_buffer (fst (av1_run st1 ps)) = ad_buffer (fst (av1_run st2 ps)).
+Proof. exact av1_run_state_is_buffer. Qed.
+Print Assumptions C15_av1_state_is_buffer.
+
+(* N = 1 and Z = 1 (W = 2) after an abandoned fragment: the stale bytes 170 187 are dropped, the orphan
+   continuation 1 2 is skipped, the second element decodes; without the N bit (160) the stale bytes
+   would be glued to the continuation *)
+Example C15_av1_sequence_nonvacuous :
+  starts_sequence [168; 2; 1; 2; 48; 7] /\
+  snd (av1_run (av1_after (mkAv1Dep [] false false false) [Some [80; 48; 170; 187]]) [[168; 2; 1; 2; 48; 7]])
+  = [Ok [50; 1; 7]] /\
+  snd (av1_run (av1_after (mkAv1Dep [] false false false) [Some [80; 48; 170; 187]]) [[160; 2; 1; 2; 48; 7]])
+  = [Ok [50; 4; 170; 187; 1; 2; 50; 1; 7]].
+Proof. split; [cbn; discriminate|split; vm_compute; reflexivity]. Qed.
+
 (* non-vacuity: an abandoned first fragment (Y = 1, never continued), then a complete one-OBU
    packet: the bytes 170 187 of the abandoned fragment do not appear *)
 Example C15_av1_nonvacuous :
